@@ -14,6 +14,14 @@ Families
              current leaf environment, i.e. what a fresh never-evaluated copy returns — measured per epoch
              on fresh copies of probe objects), statistics / histograms computed from that mask;
   `p`      = `progClean`: no stale key reachable at any evaluation (hypothesis of `impl_fresh_partial`).
+  Re-entrant form (round 3): an optional 6th element `(listeners (<msg> <eval op>…)…)` and ops
+  `(mutate <mutation descriptor> (seen <msg>…))`: the mutation is run **phase by phase** (`Mutation.phases`: the
+  transcribed order of clears, state changes and broadcasts, link-manager blocks where python saw
+  `ExternallyDerivableComponentsChangedMessage`s), listener evaluations are evaluations of the flat history
+  (`expand`), the leaf environment is measured by python at every message and after the mutation and assigned to
+  the ticks of the script (`ticksOf`).  The observable of a `mutate` op is `(m (tr (<clears> <msg>)… (<clears>
+  END)) (ev <listener observations>…))`; `ok` compares the `ev` parts with the Spec (the state current at that
+  moment), `impl` also the trace (messages and the number of `clear_all_caches()` calls between them).
 * `(slot (<key ids> <fresh values>) <pyout>)` — a single-slot keyed cache (`FloodFillSubsetState`,
   `HistogramLayerState`): requests with the key the code built and the value a freshly constructed object
   returns; `impl` = `slotRun`; `ok` = python returned the fresh value every time; `p` = the key separates
@@ -82,18 +90,191 @@ inductive Post where
   | stat (d : Nat)
   | hist (d : Nat) (nb : Nat)
 
+/-- A parsed op of the history: a primitive op, or a re-entrant mutation with its phases. -/
+inductive POp where
+  | op (o : C05Cache.Op) (post : Post)
+  | mutate (ph : List Phase)
+
 structure Case where
   views : List Bool                                             -- hashable?
   kinds : List Kind                                             -- kind of every content
-  epochs : List (List (List (Nat × Nat × Except Err Mask)))     -- epoch ↦ content ↦ rows (d, v, result)
-  vals : List (List (Option (List Int)))                        -- epoch ↦ dataset ↦ values of the statistic attribute
-  ops : List (C05Cache.Op × Post)
+  /-- measurement points, in the order python took them: the initial state, then for every atomic `datamut`
+  one, for every `mutate` one per message delivered and one at its end: content ↦ rows (d, v, result) -/
+  points : List (Option (List (List (Nat × Nat × Except Err Mask))))
+  vals : List (List (Option (List Int)))                        -- point ↦ dataset ↦ values of the statistic attribute
+  listeners : List (Msg × List (LEval × Post))
+  ops : List POp
 
 def viewOf (c : Case) (i : Nat) : View := ⟨i, (c.views[i]?).getD true⟩
 
-def worldOf (c : Case) : World := fun ep =>
+def msgOf? : String → Option Msg
+  | "numerical" => some .numerical | "remove" => some .remove | "compsChanged" => some .compsChanged
+  | "add" => some .add | "extDerivable" => some .extDerivable | "update" => some .update
+  | "replaced" => some .replaced | "pixelAligned" => some .pixelAligned | _ => none
+def msgAtom : Msg → String
+  | .numerical => "numerical" | .remove => "remove" | .compsChanged => "compsChanged" | .add => "add"
+  | .extDerivable => "extDerivable" | .update => "update" | .replaced => "replaced" | .pixelAligned => "pixelAligned"
+
+/-- A forest of removed components: a list of nodes, each node the list of its dependents. -/
+partial def remOf? : Sexp → Option Script.Rem
+  | .list [] => some .nil
+  | .list (n :: rest) => do some (.node (← remOf? n) (← remOf? (.list rest)))
+  | _ => none
+
+def natPair? : Sexp → Option (Option (Nat × Nat))
+  | .atom "N" => some none
+  | .list [a, b] => do some (some ((← a.toNat?), (← b.toNat?)))
+  | _ => none
+
+def mutationOf? : Sexp → Option Mutation
+  | .list [.atom "updateComponents"] => some .updateComponents
+  | .list [.atom "updateValues", rem, ndim, added, label, coords] => do
+    let nd ← match ndim with
+      | .atom "N" => some none
+      | .list [w, pix, n] => do some (some ((← w.toNat?), (← remOf? pix), (← n.toNat?)))
+      | _ => none
+    some (.updateValues (← remOf? rem) nd (← added.toNat?) (← label.toBool?) (← natPair? coords))
+  | .list [.atom "addComponent"] => some .addComponent
+  | .list [.atom "replaceComponent"] => some .replaceComponent
+  | .list [.atom "removeComponent", rem] => do some (.removeComponent (← remOf? rem))
+  | .list [.atom "updateId"] => some .updateId
+  | .list [.atom "setCoords", a, b] => do some (.setCoords (← a.toNat?) (← b.toNat?))
+  | .list [.atom "linkChange"] => some .linkChange
+  | _ => none
+
+/-- The evaluations (top level and inside listeners): the op and how its mask is turned into the observable. -/
+def parseEval (views : List Bool) : Sexp → Option (LEval × Post)
+  | .list [.atom "eval", a, d, v, .atom f] => do
+    let vi ← v.toNat?
+    some (.eval (← a.toNat?) (← d.toNat?) ⟨vi, (views[vi]?).getD true⟩ (← formOf? f), .plain)
+  | .list [.atom "evalcur", d, v] => do
+    let vi ← v.toNat?
+    some (.evalCur (← d.toNat?) ⟨vi, (views[vi]?).getD true⟩, .plain)
+  -- `data.compute_statistic('sum', cid, subset_state=a)` calls `a.to_mask(data, None)` (positional)
+  | .list [.atom "stat", a, d] => do
+    some (.eval (← a.toNat?) (← d.toNat?) ⟨0, (views[0]?).getD true⟩ .pos, .stat (← d.toNat?))
+  -- `data.compute_histogram(…, subset_state=a)` calls `data.get_mask(a)` = `a.to_mask(data, view=None)`
+  | .list [.atom "hist", a, d, nb] => do
+    some (.eval (← a.toNat?) (← d.toNat?) ⟨0, (views[0]?).getD true⟩ .kw, .hist (← d.toNat?) (← nb.toNat?))
+  | _ => none
+
+def parseOp (views : List Bool) (kinds : List Kind) : Sexp → Option POp
+  | .list [.atom "leaf", ct] => do
+    let n ← ct.toNat?
+    let k ← kinds[n]?
+    some (.op (.base (.leaf k n)) .plain)
+  | .list [.atom "bin", .atom o, a, b] => do some (.op (.base (.bin (← opOf? o) (← a.toNat?) (← b.toNat?))) .plain)
+  | .list [.atom "inv", a] => do some (.op (.base (.inv (← a.toNat?))) .plain)
+  | .list (.atom "mor" :: as) => do some (.op (.base (.multiOr (← as.mapM toNat?))) .plain)
+  | .list [.atom "copy", a] => do some (.op (.base (.copy (← a.toNat?))) .plain)
+  | .list [.atom "edit", .atom m, a] => do some (.op (.base (.edit (← modeOf? m) (← a.toNat?))) .plain)
+  | .list [.atom "usecur"] => some (.op (.base .useCur) .plain)
+  | .list [.atom "child", a, i] => do some (.op (.base (.child (← a.toNat?) (← i.toNat?))) .plain)
+  | .list [.atom "setattr", a, ct] => do
+    let n ← ct.toNat?
+    some (.op (.setAttr (← a.toNat?) (← kinds[n]?) n) .plain)
+  | .list [.atom "editparam", a, ct] => do
+    let n ← ct.toNat?
+    some (.op (.editParam (← a.toNat?) (← kinds[n]?) n) .plain)
+  | .list [.atom "datamut", .atom m, d] => do some (.op (.dataMut (← dataMutOf? m) (← d.toNat?)) .plain)
+  | .list [.atom "mutate", desc, .list (.atom "seen" :: ms)] => do
+    let m ← mutationOf? desc
+    let seen ← ms.mapM fun | .atom a => msgOf? a | _ => none
+    some (.mutate (m.phases seen))
+  | e => do
+    let (ev, post) ← parseEval views e
+    some (.op ev.toOp post)
+
+def parseCase : Sexp → Option Case
+  | .list (.list (.atom "views" :: vs) :: .list (.atom "kinds" :: ks) :: .list (.atom "epochs" :: es) ::
+           .list (.atom "vals" :: vls) :: .list (.atom "ops" :: os) :: more) => do
+    let views ← vs.mapM toBool?
+    let kinds ← ks.mapM fun | .atom k => kindOf? k | _ => none
+    -- `=`: not measured at this point (nothing is evaluated there)
+    let tableOf? : Sexp → Option (List (Nat × Nat × Except Err Mask)) := fun
+      | .list rows => rows.mapM fun
+        | .list [d, v, r] => do some ((← d.toNat?), (← v.toNat?), (← resOf? r))
+        | _ => none
+      | _ => none
+    let points ← es.mapM fun (e : Sexp) =>
+      match e with
+      | .atom "=" => some none
+      | .list tabs => (tabs.mapM tableOf?).map some
+      | _ => none
+    let vals ← vls.mapM fun
+      | .atom "=" => some []
+      | .list ds => ds.mapM fun
+        | .atom "N" => some none
+        | e => (e.toInts?).map some
+      | _ => none
+    let listeners ← match more with
+      | [] => some []
+      | [.list (.atom "listeners" :: ls)] => ls.mapM fun
+        | .list (.atom m :: evs) => do some ((← msgOf? m), (← evs.mapM (parseEval views)))
+        | _ => none
+      | _ => none
+    let ops ← os.mapM (parseOp views kinds)
+    some ⟨views, kinds, points, vals, listeners, ops⟩
+  | _ => none
+
+/-! ### the flat history -/
+
+/-- A primitive step of the flat history: `vis = 0` a top-level op, `1` a phase (clear / change: not an
+observation of its own), `2` an evaluation performed inside a listener. -/
+structure FOp where
+  op : C05Cache.Op
+  post : Post
+  vis : Nat
+
+def flatOf (c : Case) : POp → List FOp
+  | .op o post => [⟨o, post, 0⟩]
+  | .mutate ph =>
+    ph.flatMap (expandPhaseWith ⟨.clearAll, .plain, 1⟩ ⟨.change, .plain, 1⟩ fun m =>
+      ((c.listeners.filter (fun e => e.1 == m)).flatMap (·.2)).map fun e => ⟨e.1.toOp, e.2, 2⟩)
+
+/-- The listeners as the model takes them (`flatOf` and `expand` are the same combinator `expandPhaseWith`). -/
+def listenersOf (c : Case) : Listeners := c.listeners.map fun e => (e.1, e.2.map (·.1))
+
+def lopsOf (c : Case) : List LOp := c.ops.map fun
+  | .op o _ => .op o
+  | .mutate ph => .mutate ph
+
+/-- Which measurement point belongs to which tick: `(tick, point index)` pairs, in order. -/
+def pointTicks : Nat → Nat → List POp → List (Nat × Nat)
+  | _, _, [] => []
+  | t, k, .op (.dataMut _ _) _ :: r => (t + 1, k) :: pointTicks (t + 1) (k + 1) r
+  | t, k, .op _ _ :: r => pointTicks t k r
+  | t, k, .mutate ph :: r =>
+    let ts := ticksOf t ph
+    (ts.zip (List.range' k ts.length)) ++ pointTicks (ts.getLastD t) (k + ts.length) r
+
+def measured (c : Case) (k : Nat) : Bool := ((c.points[k]?).bind id).isSome
+
+/-- The point that gives tick `t` its environment: the first point measured in that tick; a tick in which nothing
+was measured (no message a listener reacts to, not the end) gets the next measurement (nothing is evaluated in it). -/
+def pointOfTick (c : Case) (pt : List (Nat × Nat)) (t : Nat) : Option Nat :=
+  match pt.find? (fun e => e.1 == t && measured c e.2) with
+  | some e => some e.2
+  | none => (pt.find? (fun e => e.1 > t && measured c e.2)).map (·.2)
+
+def resKey : Except Err Mask → Option Mask × Option Err
+  | .ok m => (some m, none)
+  | .error e => (none, some e)
+
+def pointKey (c : Case) (k : Nat) : Option (List (List (Nat × Nat × Option Mask × Option Err))) :=
+  ((c.points[k]?).bind id).map fun tab => tab.map fun rows => rows.map fun r => (r.1, r.2.1, resKey r.2.2)
+
+/-- Two points of the same tick must have measured the same environment (no state change in between). -/
+def ticksConsistent (c : Case) (pt : List (Nat × Nat)) : Bool :=
+  pt.all fun e =>
+    !measured c e.2 ||
+    match pointOfTick c pt e.1 with
+    | some k => k == e.2 || (pointKey c k == pointKey c e.2 && c.vals[k]? == c.vals[e.2]?)
+    | none => true
+
+def worldOf (c : Case) (pt : List (Nat × Nat)) : World := fun ep =>
   ⟨fun ct d v =>
-    match c.epochs[ep]? with
+    match (if ep == 0 then some 0 else pointOfTick c pt ep).bind (fun k => (c.points[k]?).bind id) with
     | none => .error .dangling
     | some tab =>
       match tab[ct]? with
@@ -103,64 +284,15 @@ def worldOf (c : Case) : World := fun ep =>
         | some r => r.2.2
         | none => .error .dangling⟩
 
-def parseOp (c : Case) : Sexp → Option (C05Cache.Op × Post)
-  | .list [.atom "leaf", ct] => do
-    let n ← ct.toNat?
-    let k ← c.kinds[n]?
-    some (.base (.leaf k n), .plain)
-  | .list [.atom "bin", .atom o, a, b] => do some (.base (.bin (← opOf? o) (← a.toNat?) (← b.toNat?)), .plain)
-  | .list [.atom "inv", a] => do some (.base (.inv (← a.toNat?)), .plain)
-  | .list (.atom "mor" :: as) => do some (.base (.multiOr (← as.mapM toNat?)), .plain)
-  | .list [.atom "copy", a] => do some (.base (.copy (← a.toNat?)), .plain)
-  | .list [.atom "eval", a, d, v, .atom f] => do
-    some (.base (.eval (← a.toNat?) (← d.toNat?) (viewOf c (← v.toNat?)) (← formOf? f)), .plain)
-  | .list [.atom "edit", .atom m, a] => do some (.base (.edit (← modeOf? m) (← a.toNat?)), .plain)
-  | .list [.atom "evalcur", d, v] => do some (.base (.evalCur (← d.toNat?) (viewOf c (← v.toNat?))), .plain)
-  | .list [.atom "usecur"] => some (.base .useCur, .plain)
-  | .list [.atom "child", a, i] => do some (.base (.child (← a.toNat?) (← i.toNat?)), .plain)
-  | .list [.atom "setattr", a, ct] => do
-    let n ← ct.toNat?
-    some (.setAttr (← a.toNat?) (← c.kinds[n]?) n, .plain)
-  | .list [.atom "editparam", a, ct] => do
-    let n ← ct.toNat?
-    some (.editParam (← a.toNat?) (← c.kinds[n]?) n, .plain)
-  | .list [.atom "datamut", .atom m, d] => do some (.dataMut (← dataMutOf? m) (← d.toNat?), .plain)
-  -- `data.compute_statistic('sum', cid, subset_state=a)` calls `a.to_mask(data, None)` (positional)
-  | .list [.atom "stat", a, d] => do
-    some (.base (.eval (← a.toNat?) (← d.toNat?) (viewOf c 0) .pos), .stat (← d.toNat?))
-  -- `data.compute_histogram(…, subset_state=a)` calls `data.get_mask(a)` = `a.to_mask(data, view=None)`
-  | .list [.atom "hist", a, d, nb] => do
-    some (.base (.eval (← a.toNat?) (← d.toNat?) (viewOf c 0) .kw), .hist (← d.toNat?) (← nb.toNat?))
-  | _ => none
-
-def parseCase : Sexp → Option Case
-  | .list [.list (.atom "views" :: vs), .list (.atom "kinds" :: ks), .list (.atom "epochs" :: es),
-           .list (.atom "vals" :: vls), .list (.atom "ops" :: os)] => do
-    let views ← vs.mapM toBool?
-    let kinds ← ks.mapM fun | .atom k => kindOf? k | _ => none
-    let epochs ← es.mapM fun
-      | .list tabs => tabs.mapM fun
-        | .list rows => rows.mapM fun
-          | .list [d, v, r] => do some ((← d.toNat?), (← v.toNat?), (← resOf? r))
-          | _ => none
-        | _ => none
-      | _ => none
-    let vals ← vls.mapM fun
-      | .list ds => ds.mapM fun
-        | .atom "N" => some none
-        | e => (e.toInts?).map some
-      | _ => none
-    let c0 : Case := ⟨views, kinds, epochs, vals, []⟩
-    let ops ← os.mapM (parseOp c0)
-    some { c0 with ops := ops }
-  | _ => none
+def valsOf (c : Case) (pt : List (Nat × Nat)) (ep : Nat) : Option (List (Option (List Int))) :=
+  (if ep == 0 then some 0 else pointOfTick c pt ep).bind (c.vals[·]?)
 
 /-! ### observables -/
 
 def intsSexp (xs : List Int) : Sexp := .list (xs.map ofInt)
 
-/-- What the outside sees of one op, given the epoch it ran in. -/
-def obsSexp (c : Case) (ep : Nat) (post : Post) : Obs → Sexp
+/-- What the outside sees of one evaluation / op, given the statistic values of the tick it ran in. -/
+def obsSexp (vals : Option (List (Option (List Int)))) (post : Post) : Obs → Sexp
   | .none => .atom "N"
   | .bad => .atom "bad"
   | .mask (.error e) =>
@@ -172,30 +304,54 @@ def obsSexp (c : Case) (ep : Nat) (post : Post) : Obs → Sexp
     match post with
     | .plain => .list [.atom "ok", ofNats m.shape, bitsAtom m.bits]
     | .stat d =>
-      match (c.vals[ep]?).bind (fun r => (r[d]?).bind id) with
+      match vals.bind (fun r => (r[d]?).bind id) with
       | some vs =>
         if vs.length != m.bits.length then .list [.atom "err", .atom "stat-error"]   -- mask does not fit the data
         else if (maskedVals vs m).isEmpty then .atom "nan" else .list [.atom "int", ofInt (maskedSum vs m)]
       | none => .atom "novals"
     | .hist d nb =>
-      match (c.vals[ep]?).bind (fun r => (r[d]?).bind id) with
+      match vals.bind (fun r => (r[d]?).bind id) with
       | some vs =>
         if vs.length != m.bits.length then .list [.atom "err", .atom "stat-error"]
         else .list (.atom "cnt" :: (maskedHist vs nb m).map ofNat)
       | none => .atom "novals"
 
-/-- Epoch in which each op runs. -/
-def epochsOf : Nat → List (C05Cache.Op × Post) → List Nat
+/-- Tick in which each primitive step runs. -/
+def epochsOf : Nat → List FOp → List Nat
   | _, [] => []
-  | ep, (op, _) :: rest =>
-    ep :: epochsOf (match op with | .dataMut _ _ => ep + 1 | _ => ep) rest
+  | ep, f :: rest =>
+    ep :: epochsOf (match f.op with | .dataMut _ _ => ep + 1 | .change => ep + 1 | _ => ep) rest
 
-def obsList (c : Case) (obs : List Obs) : List Sexp :=
-  let eps := epochsOf 0 c.ops
-  (List.range obs.length).map fun i =>
-    match obs[i]?, c.ops[i]?, eps[i]? with
-    | some o, some (_, post), some ep => obsSexp c ep post o
-    | _, _, _ => .atom "N"
+def traceSexp (ph : List Phase) : Sexp :=
+  tagged "tr" ((traceOf 0 ph).map fun e =>
+    .list [ofNat e.1, .atom (match e.2 with | some m => msgAtom m | none => "END")])
+
+/-- The observables of the history, op by op: one per primitive op; for a mutation `(m (tr …) (ev …))`. With
+`withTrace = false` the trace is left out (the Spec says nothing about it). -/
+def obsList (c : Case) (pt : List (Nat × Nat)) (withTrace : Bool) (obs : List Obs) : List Sexp :=
+  let flats := c.ops.map (flatOf c)
+  let eps := epochsOf 0 flats.flatten
+  let rec go : List POp → List (List FOp) → Nat → List Sexp
+    | [], _, _ => []
+    | _, [], _ => []
+    | pop :: pr, fl :: fr, off =>
+      let one (i : Nat) (f : FOp) : Sexp :=
+        match obs[off + i]?, eps[off + i]? with
+        | some o, some ep => obsSexp (valsOf c pt ep) f.post o
+        | _, _ => .atom "N"
+      let here :=
+        match pop with
+        | .op _ _ => (match fl with | f :: _ => one 0 f | [] => .atom "N")
+        | .mutate ph =>
+          let evs := ((List.range fl.length).zip fl).filterMap fun (i, f) => if f.vis == 2 then some (one i f) else none
+          .list ([.atom "m"] ++ (if withTrace then [traceSexp ph] else []) ++ [tagged "ev" evs])
+      here :: go pr fr (off + fl.length)
+  go c.ops flats 0
+
+/-- python's observation with the trace of every mutation removed. -/
+def stripTrace : Sexp → Sexp
+  | .list [.atom "m", .list (.atom "tr" :: _), ev] => .list [.atom "m", ev]
+  | e => e
 
 def strLe (a b : String) : Bool := a < b || a == b
 
@@ -217,21 +373,26 @@ def stepHist (cs pyout : Sexp) : String :=
   match parseCase cs with
   | none => bad "hist-case"
   | some c =>
-    let w := worldOf c
-    let prog := c.ops.map (·.1)
+    let pt := (0, 0) :: pointTicks 0 1 c.ops
+    let w := worldOf c pt
+    let prog := expand (listenersOf c) (lopsOf c)
     let ri := C05Cache.Impl.run classTable repairedPolicy w {} prog
     let rs := C05Cache.Spec.run classTable w {} prog
-    let implObs := obsList c (ri.2.map (·.obs))
-    let specObs := obsList c rs.2
-    let impl := outSexp implObs (memoSexp ri.1.s.h)
+    let implObs := obsList c pt true (ri.2.map (·.obs))
+    let specObs := obsList c pt false rs.2
+    let consistent := ticksConsistent c pt
+    let impl := outSexp (implObs ++ (if consistent then [] else [.atom "model-tick-env-mismatch"])) (memoSexp ri.1.s.h)
     let p := progClean classTable repairedPolicy w {} prog
     let ok := match pyout with
-      | .list [.list (.atom "obs" :: po), .list (.atom "memo" :: _)] => sexpListEq po specObs
+      | .list [.list (.atom "obs" :: po), .list (.atom "memo" :: _)] => sexpListEq (po.map stripTrace) specObs
       | _ => false
     let hit := !ri.1.s.h.memo.isEmpty
     let hasMut := prog.any fun o => match o with | .base _ => false | _ => true
-    let br := (if p then "clean" else "stale") ++ (if hit then "-memo" else "-nomemo") ++ (if hasMut then "-mut" else "")
-    driverResult impl ok (sexpListEq implObs specObs) p br
+    let reent := c.ops.any fun | .mutate _ => true | _ => false
+    let lev := (c.ops.map (flatOf c)).flatten.any (·.vis == 2)
+    let br := (if p then "clean" else "stale") ++ (if hit then "-memo" else "-nomemo") ++ (if hasMut then "-mut" else "") ++
+      (if lev then "-listener" else if reent then "-phased" else "")
+    driverResult impl ok (sexpListEq (obsList c pt false (ri.2.map (·.obs))) specObs) p br
 
 /-! ### keyed caches -/
 
